@@ -307,8 +307,17 @@ class AstToSqlVisitor(visitor.NodeVisitor):
             if suffix:
                 res = res + f" || '{suffix}'"
         else:
-            res = str(arg.val).replace("%", "%%").replace("_", "__")  # type: ignore
-            res = "'" + prefix + res + suffix + "'"
+            res = str(arg.val)  # type: ignore
+            escape = ""
+            if any(char in res for char in ("\\", "%", "_")):
+                # The value contains LIKE wildcards that should match literally:
+                res = (
+                    res.replace("\\", "\\\\").replace("%", "\\%").replace("_", "\\_")
+                )
+                escape = " ESCAPE '\\'"
+            # Replace single quotes with double single-quotes acc SQL standard:
+            res = res.replace("'", "''")
+            res = "'" + prefix + res + suffix + "'" + escape
         return res
 
     def sqlfunc_contains(self, *args: ast._Node) -> str:
